@@ -60,7 +60,7 @@ fn any_window() -> (LZEncoderData, [u8; WB], u32) {
 }
 
 // C01-F / C13-B: fill_window from an arbitrary in-invariant window: accepts a prefix of the input, copies exactly that
-// prefix behind the old data, slides the window only by a multiple of 64 while keeping keep_size_before bytes of
+// prefix behind the old data, slides the window only by a multiple of 16 (position bits preserved) while keeping keep_size_before bytes of
 // history, and recomputes the look-ahead gate (read_limit) as write_pos - keep_size_after.
 //@ {"name":"c01f_window_fill_move","props":["C01","C13","C07"],"obligation":"C01-F","timeout":1500,"mem_gb":9,"functions":["lz::lz_encoder::LZEncoderData::fill_window","lz::lz_encoder::LZEncoderData::move_window","lz::lz_encoder::LZEncoderData::process_pending_bytes","lz::lz_encoder::LZEncoderData::move_pos"],"bounds":"160-byte window with arbitrary content; keep_size_before 1..=16, keep_size_after 4..=16 (symbolic); any read_pos/write_pos/read_limit/pending_size under the invariant; input 0..=8 arbitrary bytes; unwind 10","assumes":["window invariant winv()","match finder replaced by a position-only stub (PosOnlyMF) that advances read_pos like HC4::skip"],"stubs":["PosOnlyMF match finder"]}
 #[kani::proof]
@@ -76,7 +76,8 @@ fn c01f_window_fill_move() {
     let used = d.fill_window(&input[..ilen], &mut mf);
     assert!(used <= ilen, "C01-F: fill_window consumed more than offered");
     let shift = wp0 + used as i32 - d.write_pos; // how far the window slid
-    assert!(shift >= 0 && shift % 64 == 0, "C01-F: window moved by a non-multiple of 64 or backwards");
+    // positions feed pos_state / literal position bits (masks up to 15): a slide must keep them, i.e. be a multiple of 16
+    assert!(shift >= 0 && shift % 16 == 0, "C01-F: window moved backwards or by an amount that changes the position bits (not a multiple of 16)");
     assert!(will_move || shift == 0);
     assert!(d.write_pos as usize <= d.buf_size && d.write_pos >= 0);
     // history: every byte from (old read_pos + 1 - keep_size_before) up to the old write_pos is still there
